@@ -248,8 +248,8 @@ def _small_items(maxlen):
 
 
 def phases(tier):
-    n = 5000 if tier == "quick" else 300000
-    maxlen = 4 if tier == "quick" else 5
+    n = 20000 if tier == "quick" else 400000
+    maxlen = 5 if tier == "quick" else 6
     return [
         Phase("small-scenarios", "enum", items=lambda: _small_items(maxlen), exhaustive=True),
         Phase("scenarios", "gen", strategy=scenario, n=n),
